@@ -1,10 +1,12 @@
 import HdVerif.Proofs.SRReport
 import HdVerif.Proofs.SRReportTie
+import HdVerif.Proofs.SRReportHistory
 import HdVerif.Generated.T16d
 import HdVerif.Generated.T16e
 import HdVerif.Generated.T16f
 import HdVerif.Generated.T16g
 import HdVerif.Generated.T16k
+import HdVerif.Generated.T16l
 import HdVerif.Generated.T15c
 /-! # C16  Measurement-report queries return exactly the matching groups
 
@@ -122,6 +124,55 @@ theorem every_group_is_visited :
       Gen.queryLoopFrame.contains (m, "else", "no") &&
       Gen.queryLoopFrame.contains (m, "tail", "return sequences") &&
       Gen.queryLoopFrame.contains (m, "other-result-calls", "")) = true := by
+  decide +kernel
+
+/-- **The filter part of the three loop bodies is the skeleton the model implements** (table of every `matches.append(…)`
+and every assignment to `matches_uids` with its path condition, regenerated from the current source on every run, T16l;
+coded concepts appear as "value|scheme" and are compared with the MODEL's constants `cImageRegion`, … — a trip-wire on a
+table in the sense of AGENT_GUIDE §3a, closing the "C only" row of the skeleton in docs/C16.md).  It pins, for each query:
+which entries `matches` gets and when (`commonMatches`: finding type, finding site, tracking UID, each only when given; the
+reference-type / graphic-type / referenced-UID entries only under `Filters.needsRef` resp. `Filters.hasUid`, in that order);
+that the planar graphic entry is `False` for a reference item of the other value type (`graphicEntry`); that the referenced-UID
+entry is the disjunction of exactly three searches with exactly these guards (`planarUid`, `volumetricUid`: the reference
+item's own UIDs for a segmentation frame resp. segment or a region in space; the source images below every 2-D region for
+an image region; the top-level source images for a segmentation frame resp. segment) and the single search of the image
+query (`imageKeep`).  Dropping a guard, searching under another name or appending an entry unconditionally makes it fail. -/
+theorem filter_skeleton_is_the_source_skeleton :
+    Gen.queryConditionNames =
+      [("NEEDS_REF", "reference_type is not None or graphic_type is not None or referenced_sop_class_uid is not None or (referenced_sop_instance_uid is not None)"),
+       ("HAS_UID", "referenced_sop_instance_uid is not None or referenced_sop_class_uid is not None")] ∧
+    (Gen.queryMatchesSkeleton.filter fun r => r.2.1 == "append" || r.2.1 == "assign matches_uids") =
+      (["planar", "volumetric"].flatMap fun m =>
+        let direct := if m == "planar" then cReferencedSegmentationFrame else cReferencedSegment
+        let loop := if m == "planar" then "" else "for ref_item in ref_items and "
+        [(m, "append", "finding_type is not None", "matches_finding"),
+         (m, "append", "finding_site is not None", "matches_finding_sites"),
+         (m, "append", "tracking_uid is not None", "matches_tracking_uid"),
+         (m, "append", "NEEDS_REF and reference_type is not None", "found_ref_type == reference_type")] ++
+        (if m == "planar" then
+          [(m, "append", "NEEDS_REF and graphic_type is not None and isinstance(graphic_type, GraphicTypeValues) and ref_value_type == ValueTypeValues.SCOORD", "found_gt == graphic_type"),
+           (m, "append", "NEEDS_REF and graphic_type is not None and isinstance(graphic_type, GraphicTypeValues) and not (ref_value_type == ValueTypeValues.SCOORD)", "False"),
+           (m, "append", "NEEDS_REF and graphic_type is not None and not (isinstance(graphic_type, GraphicTypeValues)) and ref_value_type == ValueTypeValues.SCOORD3D", "found_gt == graphic_type"),
+           (m, "append", "NEEDS_REF and graphic_type is not None and not (isinstance(graphic_type, GraphicTypeValues)) and not (ref_value_type == ValueTypeValues.SCOORD3D)", "False")]
+         else [(m, "append", "NEEDS_REF and graphic_type is not None", "graphic_type in found_gts")]) ++
+        [(m, "assign matches_uids", "NEEDS_REF and HAS_UID", "False"),
+         (m, "assign matches_uids", "NEEDS_REF and HAS_UID and found_ref_type in ['" ++ direct ++ "', '" ++ cRegionInSpace ++
+            "'] and matches_class_uid and matches_instance_uid", "True"),
+         (m, "assign matches_uids", "NEEDS_REF and HAS_UID and found_ref_type == '" ++ cImageRegion ++ "' and " ++ loop ++
+            "ref_item.value_type == ValueTypeValues.SCOORD and _contains_image_items(ref_item, name=None, " ++
+            "referenced_sop_class_uid=referenced_sop_class_uid, referenced_sop_instance_uid=referenced_sop_instance_uid, " ++
+            "relationship_type=RelationshipTypeValues.SELECTED_FROM)", "True"),
+         (m, "assign matches_uids", "NEEDS_REF and HAS_UID and found_ref_type == '" ++ direct ++ "' and _contains_image_items(group_item, name='" ++
+            cSourceImageForSegmentation ++ "', referenced_sop_class_uid=referenced_sop_class_uid, " ++
+            "referenced_sop_instance_uid=referenced_sop_instance_uid, relationship_type=RelationshipTypeValues.CONTAINS)", "True"),
+         (m, "append", "NEEDS_REF and HAS_UID", "matches_uids")]) ++
+      [("image", "append", "finding_type is not None", "matches_finding"),
+       ("image", "append", "finding_site is not None", "matches_finding_sites"),
+       ("image", "append", "tracking_uid is not None", "matches_tracking_uid"),
+       ("image", "assign matches_uids", "HAS_UID", "_contains_image_items(group_item, name='" ++ cSource ++
+          "', referenced_sop_class_uid=referenced_sop_class_uid, referenced_sop_instance_uid=referenced_sop_instance_uid, " ++
+          "relationship_type=RelationshipTypeValues.CONTAINS)"),
+       ("image", "append", "HAS_UID", "matches_uids")] := by
   decide +kernel
 
 /-- **A query leaves nothing behind on the report object.**  The table of what the three queries and every method of the
@@ -573,5 +624,69 @@ example : query .planar [exMalformed[1], exMalformed[2]] { graphic := some (true
 example : query .planar [exMalformed[1]] { inst := some "7.3" } = .error .attribute := by decide
 example : query .planar [exMalformed[2]] { inst := some "7.3" } = .error .attribute := by decide
 example : exMalformed.map Group.sound = [false, false, false] := by decide
+
+/-! ## several calls on one report object; reports that spell their codes differently (round 2) -/
+
+/-- **Histories query / edit / query on ONE report object.**  In any history of in-place edits (a group replaced, two groups
+exchanged, one deleted, one appended) and queries, the answer of a query is the query evaluated on the report AS IT IS THEN —
+the groups after the edits that precede it; the queries that precede it play no role (`pre.filter Op.isEdit`) — and the
+answers before and after it are what they would be without it.  With `query_is_document_order_filter`: an accepted answer
+lists, in document order and once each, exactly the positions of the groups the report holds at that moment which the loop
+body keeps.  The semantics `run` has no state but the list of group containers: that the real object has none either is
+`queries_write_nothing_on_the_report` (T16g) and `no_state_carried_across_groups` (T16e); the `history` stream of the
+correspondence runs query → edit → query → edit → query on one object against the model over the report as it is now. -/
+theorem history_answers_depend_on_the_current_report_only (r : List Group) (pre post : List Op) (k : Kind) (f : Filters) :
+    run r (pre ++ Op.query k f :: post) =
+      run r pre ++ query k (stateAfter r (pre.filter Op.isEdit)) f :: run (stateAfter r (pre.filter Op.isEdit)) post ∧
+    stateAfter r (pre ++ Op.query k f :: post) = stateAfter r (pre ++ post) ∧
+    (∀ l, query k (stateAfter r (pre.filter Op.isEdit)) f = .ok l →
+      l.Pairwise (· < ·) ∧ ∀ j, j ∈ l ↔ ∃ g, (stateAfter r (pre.filter Op.isEdit))[j]? = some g ∧ keep k g f = .ok true) := by
+  refine ⟨?_, ?_, ?_⟩
+  · rw [run_append, stateAfter_filter_edits r pre]
+    rfl
+  · rw [stateAfter_append, stateAfter_append]
+    rfl
+  · intro l h
+    obtain ⟨h1, h2, _⟩ := query_is_document_order_filter k _ f l h
+    exact ⟨h1, h2⟩
+
+/-- **Two groups exchanged in place**: the answer afterwards names the same groups, at their new positions (a position is
+returned after the exchange iff the position the group had before was returned before). -/
+theorem exchanged_groups_answer (k : Kind) (f : Filters) (r : List Group) (i j : Nat) (hi : i < r.length) (hj : j < r.length)
+    (l l' : List Nat) (h : query k r f = .ok l) (h' : query k (applyEdit r (.swap i j)) f = .ok l') :
+    ∀ p, p ∈ l' ↔ swapIdx i j p ∈ l := by
+  intro p
+  obtain ⟨_, h2, _⟩ := query_is_document_order_filter k _ f l h
+  obtain ⟨_, h2', _⟩ := query_is_document_order_filter k _ f l' h'
+  rw [h2', h2, getElem?_swap r i j hi hj p]
+
+/-- **Equivalent spellings.**  Code equality in the library is equality after normalisation (`norm`: the legacy SNOMED-RT
+identifier of a concept equals its SNOMED-CT identifier, C17).  A report whose concept names and coded values are respelled
+with equivalent codes (`norm (respell c) = norm c` for every code — e.g. a report written before 2019, or by a third party)
+answers every query exactly as the original, and so does a query whose filter values are respelled.  The `legacy-names`
+perturbation (metamorphic, random and systematic), the fixture stream on the repository's legacy-spelled report and the
+finding-site / finding-type filters in both spellings exercise this on the real queries. -/
+theorem respelled_report_answers_the_same (norm respell : String → String) (h : ∀ c, norm (respell c) = norm c) (k : Kind)
+    (gs : List Group) (f : Filters) :
+    queryN norm k (gs.map (Group.mapCodes respell)) f = queryN norm k gs f ∧
+    queryN norm k gs (f.mapCodes respell) = queryN norm k gs f :=
+  ⟨queryN_respell norm respell h k gs f, queryN_respell_filter norm respell h k gs f⟩
+
+/-- non-vacuity of the history / exchange / spelling theorems on the six-group example report: a history planar query,
+exchange of groups 0 and 2, deletion of group 5, planar query, append, volumetric query; the exchange alone; a report with
+the finding site item named in the legacy SNOMED-RT spelling (G-C0E3, SRT) queried by finding site -/
+def exHistory : List Op :=
+  [.query .planar {}, .edit (.swap 0 2), .edit (.delete 5), .query .planar {}, .edit (.append (mkGroup exReport[1])),
+   .query .volumetric { graphic := some (true, "CIRCLE") }]
+example : run (exReport.map mkGroup) exHistory = [.ok [0, 2, 5], .ok [0, 2], .ok [1, 5]] := by decide
+example : (stateAfter (exReport.map mkGroup) exHistory).length = 6 ∧
+    stateAfter (exReport.map mkGroup) exHistory = stateAfter (exReport.map mkGroup) (exHistory.filter Op.isEdit) := by decide
+example : query .planar (applyEdit (exReport.map mkGroup) (.swap 0 1)) {} = .ok [1, 2, 5] ∧
+    [1, 2, 5].map (swapIdx 0 1) = [0, 2, 5] := by decide
+def exNorm (c : String) : String := if c == "G-C0E3|SRT" then "363698007|SCT" else c
+def exRespell (c : String) : String := if c == "363698007|SCT" then "G-C0E3|SRT" else c
+example : ∀ c ∈ ["363698007|SCT", "G-C0E3|SRT", "121071|DCM", "S1|99V"], exNorm (exRespell c) = exNorm c := by decide
+example : queryN exNorm .planar ((exReport.map mkGroup).map (Group.mapCodes exRespell)) { findingSite := some "S1|99V" } = .ok [0, 5] ∧
+    query .planar ((exReport.map mkGroup).map (Group.mapCodes exRespell)) { findingSite := some "S1|99V" } = .ok [] := by decide
 
 end HdVerif.C16
